@@ -494,6 +494,58 @@ fn plain_join(toks: &[String]) -> String {
     format!("{{{{ {} }}}}", toks.join(" "))
 }
 
+/// The ASCII whitespace spellings between two tokens inside `{{ }}` / `{% %}` (lexer.rs skips
+/// `is_ascii_whitespace`: space, tab, LF, FF, CR).  `None` = no separator where that cannot fuse two
+/// tokens (same rule as `join`), a single space elsewhere; `Some("")` = cycle through all of them.
+const WS_VARIANTS: [(&str, Option<&str>); 10] = [
+    ("tab", Some("\t")),
+    ("lf", Some("\n")),
+    ("crlf", Some("\r\n")),
+    ("cr", Some("\r")),
+    ("ff", Some("\x0c")),
+    ("two spaces", Some("  ")),
+    ("mixed run", Some(" \r\n\t \x0c")),
+    ("crlf indent", Some("\r\n    ")),
+    ("cycle", Some("")),
+    ("none where legal", None),
+];
+
+/// tokens joined with one whitespace spelling (also after the opening and before the closing
+/// delimiter), without the delimiters
+fn ws_inner(toks: &[String], variant: Option<&str>) -> String {
+    const CYCLE: [&str; 7] = [" ", "\t", "\n", "\r\n", "\r", "\x0c", " \r\n "];
+    let mut k = 0usize;
+    let mut sep = |tight_ok: bool| -> String {
+        match variant {
+            None => if tight_ok { String::new() } else { " ".into() },
+            Some("") => {
+                k += 1;
+                CYCLE[k % CYCLE.len()].to_string()
+            }
+            Some(w) => w.to_string(),
+        }
+    };
+    let mut s = String::new();
+    s.push_str(&match variant { None => " ".to_string(), _ => sep(false) });
+    for (i, t) in toks.iter().enumerate() {
+        if i > 0 {
+            let a = toks[i - 1].as_str();
+            let b = t.as_str();
+            let a_ok = matches!(a, "(" | "[" | "," | ":" | ")" | "]")
+                || a.chars().last().map(|c| c.is_ascii_alphabetic() || c == '_' || c == '\'' || c == '"' || c == '`').unwrap_or(false);
+            let b_ok = matches!(b, "(" | ")" | "[" | "]" | "," | ":");
+            s.push_str(&sep(a_ok && b_ok));
+        }
+        s.push_str(t);
+    }
+    s.push_str(&match variant { None => " ".to_string(), _ => sep(false) });
+    s
+}
+
+fn ws_join(toks: &[String], variant: Option<&str>) -> String {
+    format!("{{{{{}}}}}", ws_inner(toks, variant))
+}
+
 // ------------------------------------------------------------------ generator
 
 #[derive(Clone, Copy, PartialEq)]
@@ -1262,6 +1314,7 @@ fn main() {
     // ---- random typed expressions, depth <= 6, printed minimal(+redundant) vs full
     let n_random = env.budget(6000, 1_500_000);
     let mut trees: Vec<X> = Vec::new();
+    let mut tree_toks: Vec<Vec<String>> = Vec::new();
     for i in 0..n_random {
         let d = 1 + rng.below(6);
         let mut x = gen_x(Ty::Any, d, &mut rng);
@@ -1275,7 +1328,33 @@ fn main() {
         let src = join(&toks, &mut rng, i % 3 == 0);
         cases.push(Case { stream: "random", src, reference: Some(full_of(&x, &mut full)), other: None, label: x.kind().into() });
         trees.push(x);
+        tree_toks.push(toks);
     }
+
+    // ---- whitespace: the parse must not depend on WHICH ASCII whitespace separates the tokens
+    // inside a tag (space, tab, LF, CRLF, CR, FF, runs, none where legal).  Reference = the
+    // single-space spelling of the same tokens (AST and render must be equal), and the documented
+    // full parenthesisation for the CRLF spelling (an expression broken over lines in a CRLF file).
+    let n_ws = env.budget(250, 20_000).min(trees.len());
+    for (x, toks) in trees.iter().zip(tree_toks.iter()).take(n_ws) {
+        for (name, v) in WS_VARIANTS {
+            cases.push(Case { stream: "whitespace", src: ws_join(toks, v), reference: Some(plain_join(toks)), other: None, label: format!("separator: {name}") });
+        }
+        cases.push(Case { stream: "whitespace", src: ws_join(toks, Some("\r\n")), reference: Some(full_of(x, &mut full)), other: None, label: "crlf vs documented parenthesisation".into() });
+        cases.push(Case { stream: "whitespace", src: ws_join(toks, Some("\r")), reference: Some(full_of(x, &mut full)), other: None, label: "cr vs documented parenthesisation".into() });
+    }
+    // every unparenthesised operator pair `A op1 B op2 C` again, broken over CRLF lines, against
+    // the documented grouping
+    let pair_ws: Vec<Case> = cases
+        .iter()
+        .filter(|c| c.stream == "pair-raw" && !c.src.contains(['\'', '"', '`']))
+        .map(|c| {
+            let inner = c.src.trim_start_matches("{{ ").trim_end_matches(" }}");
+            let toks: Vec<String> = inner.split(' ').filter(|t| !t.is_empty()).map(|t| t.to_string()).collect();
+            Case { stream: "whitespace", src: ws_join(&toks, Some("\r\n")), reference: c.reference.clone(), other: None, label: format!("crlf pair {}", c.label) }
+        })
+        .collect();
+    cases.extend(pair_ws);
     for x in &trees {
         let mut kinds = HashSet::new();
         x.walk(&mut |n| {
@@ -1604,6 +1683,8 @@ fn main() {
             if !r.starts_with("ok ") {
                 // the reference spelling itself must be accepted; otherwise the generator is wrong
                 oracle_fail.push((i, format!("reference spelling rejected by the engine: {}", c.reference.as_ref().unwrap())));
+            } else if r != e_src && c.stream == "whitespace" {
+                oracle_fail.push((i, format!("the parse depends on the whitespace between tokens inside a tag ({}): {:?} parses to `{}` but {:?} parses to `{}`", c.label, c.src, e_src, c.reference.as_ref().unwrap(), r)));
             } else if r != e_src {
                 oracle_fail.push((i, format!("`{}` groups differently from the documented `{}`", c.src, c.reference.as_ref().unwrap())));
             }
@@ -1638,7 +1719,9 @@ fn main() {
         let c = &cases[*i];
         report.oracle_checks += 1;
         report.count(&format!("{}.render.{}", c.stream, a.split(' ').next().unwrap_or("")));
-        if a != b {
+        if a != b && c.stream == "whitespace" {
+            oracle_fail.push((*i, format!("the result depends on the whitespace between tokens inside a tag ({}): {:?} renders {a:?} but {:?} renders {b:?}", c.label, c.src, c.reference.as_ref().unwrap())));
+        } else if a != b {
             oracle_fail.push((*i, format!("`{}` renders {a:?} but the documented `{}` renders {b:?}", c.src, c.reference.as_ref().unwrap())));
         }
         if let Some(o) = o {
@@ -1649,6 +1732,80 @@ fn main() {
     }
     report.count_n("pair-raw.pairs_with_distinguishing_operands", distinguishing_pairs.len() as u64);
     report.oracle_failures = oracle_fail.len() as u64;
+
+    // ---- the same inside `{% %}` tags (engine only: the model of this check parses `{{ expr }}`):
+    // `{% if X %}`, `{% set v = X %}`, `{% for q in X %}` with every whitespace spelling between
+    // the tokens of the tag must give the AST and the output of the single-space spelling
+    let mut tag_fail: Vec<(Case, String)> = Vec::new();
+    {
+        let n_tag = env.budget(120, 5_000).min(trees.len());
+        let mut tag_cases: Vec<Case> = Vec::new();
+        let tag = |head: &[&str], toks: &[String], v: Option<&str>| -> String {
+            let mut all: Vec<String> = head.iter().map(|h| h.to_string()).collect();
+            all.extend(toks.iter().cloned());
+            format!("{{%{}%}}", ws_inner(&all, v))
+        };
+        let bare = |words: &[&str], v: Option<&str>| -> String {
+            let all: Vec<String> = words.iter().map(|h| h.to_string()).collect();
+            format!("{{%{}%}}", ws_inner(&all, v))
+        };
+        for toks in tree_toks.iter().take(n_tag) {
+            for (name, v) in WS_VARIANTS {
+                let sp = Some(" ");
+                let forms: [(String, String); 3] = [
+                    (format!("{}y{}n{}", tag(&["if"], toks, v), bare(&["else"], v), bare(&["endif"], v)),
+                     format!("{}y{}n{}", tag(&["if"], toks, sp), bare(&["else"], sp), bare(&["endif"], sp))),
+                    (format!("{}{}", tag(&["set", "v", "="], toks, v), ws_join(&["v".to_string()], v)),
+                     format!("{}{}", tag(&["set", "v", "="], toks, sp), ws_join(&["v".to_string()], sp))),
+                    (format!("{}{}{}", tag(&["for", "q", "in"], toks, v), ws_join(&["q".to_string()], v), bare(&["endfor"], v)),
+                     format!("{}{}{}", tag(&["for", "q", "in"], toks, sp), ws_join(&["q".to_string()], sp), bare(&["endfor"], sp))),
+                ];
+                for (src, reference) in forms {
+                    tag_cases.push(Case { stream: "whitespace-tag", src, reference: Some(reference), other: None, label: format!("separator: {name}") });
+                }
+            }
+        }
+        let found: Vec<(usize, String)> = std::thread::scope(|s| {
+            let per = tag_cases.len().div_ceil(threads).max(1);
+            let (tera, ctx) = (&tera, &ctx);
+            let hs: Vec<_> = tag_cases
+                .chunks(per)
+                .enumerate()
+                .map(|(ci, cs)| {
+                    s.spawn(move || {
+                        let mut out = Vec::new();
+                        for (k, c) in cs.iter().enumerate() {
+                            let r = c.reference.as_ref().unwrap();
+                            let (a, b) = (engine_ast(&c.src), engine_ast(r));
+                            if a != b {
+                                out.push((ci * per + k, format!("the parse depends on the whitespace between tokens inside a tag ({}): {:?} parses to `{a}` but {r:?} parses to `{b}`", c.label, c.src)));
+                                continue;
+                            }
+                            let (ra, rb) = (engine_render(tera, ctx, &c.src), engine_render(tera, ctx, r));
+                            if ra != rb {
+                                out.push((ci * per + k, format!("the result depends on the whitespace between tokens inside a tag ({}): {:?} renders {ra:?} but {r:?} renders {rb:?}", c.label, c.src)));
+                            }
+                        }
+                        out
+                    })
+                })
+                .collect();
+            hs.into_iter().flat_map(|h| h.join().unwrap()).collect()
+        });
+        report.evaluations += tag_cases.len() as u64;
+        report.oracle_checks += 2 * tag_cases.len() as u64;
+        report.count_n("whitespace-tag.cases", tag_cases.len() as u64);
+        report.oracle_failures += found.len() as u64;
+        let mut found = found;
+        found.sort_by_key(|(i, _)| tag_cases[*i].src.len());
+        let keep: Vec<(usize, String)> = found.into_iter().take(5).collect();
+        let mut tag_cases: Vec<Option<Case>> = tag_cases.into_iter().map(Some).collect();
+        for (i, d) in keep {
+            if let Some(c) = tag_cases[i].take() {
+                tag_fail.push((c, d));
+            }
+        }
+    }
 
     // ---- model and implementation disagree but no oracle failure so far: targeted burst, the
     // direct oracle alone (engine only) on 10x the random budget plus every case of the streams
@@ -1712,6 +1869,9 @@ fn main() {
     for (c, d) in &burst_fail {
         report.violation("property", d.clone(), replay_of(c, serde_json::json!({"oracle": d, "found_by": "targeted burst after a model disagreement"})));
     }
+    for (c, d) in &tag_fail {
+        report.violation("property", d.clone(), replay_of(c, serde_json::json!({"oracle": d, "found_by": "whitespace spellings inside {% %} tags"})));
+    }
 
     // ---- violations
     oracle_fail.sort_by_key(|(i, _)| cases[*i].src.len());
@@ -1762,6 +1922,6 @@ fn main() {
         if env.quick() { "" } else { ", 21^3 triples" },
         n_exhaustive
     ));
-    report.rule = "a case is a source `{{ expr }}`; non-trivial = the real parser accepts it (the Pratt loop ran to completion); distinct by source text. Streams: pair-raw / triple-raw (no parentheses, documented grouping as oracle), pair-nesting (both nestings through the printer), unary-infix, infix-unary, ternary-infix, random (typed trees depth<=6, minimal+redundant parentheses vs fully parenthesised), mutated / limits / handwritten (malformed and boundary inputs: both sides must reject or agree), shapes (exhaustive small argument lists / arrays / maps / comprehensions / slices / component calls), in-loop (the same inside `{% for %}`), repo-inputs; spec-printer: the documented spelling the LEAN reference printer `S.render` gives a random tree, parsed by the real engine, must be the AST `S.erase` assigns to it".into();
+    report.rule = "a case is a source `{{ expr }}`; non-trivial = the real parser accepts it (the Pratt loop ran to completion); distinct by source text. Streams: pair-raw / triple-raw (no parentheses, documented grouping as oracle), pair-nesting (both nestings through the printer), unary-infix, infix-unary, ternary-infix, random (typed trees depth<=6, minimal+redundant parentheses vs fully parenthesised), mutated / limits / handwritten (malformed and boundary inputs: both sides must reject or agree), shapes (exhaustive small argument lists / arrays / maps / comprehensions / slices / component calls), in-loop (the same inside `{% for %}`), whitespace (the same token sequence with every ASCII whitespace spelling between the tokens — tab, LF, CRLF, CR, FF, runs, none where legal — against its single-space spelling and, for CRLF / CR, against the documented parenthesisation; whitespace-tag: the same inside `{% if %}` / `{% set %}` / `{% for %}` tags, engine only), repo-inputs; spec-printer: the documented spelling the LEAN reference printer `S.render` gives a random tree, parsed by the real engine, must be the AST `S.erase` assigns to it".into();
     report.write(&out_path());
 }
